@@ -235,7 +235,10 @@ class Check:
 
     # -- scale helpers
     def n(self, quick, thorough):
-        return thorough if self.tier == 'thorough' else quick
+        # thorough tier: the listed count times VERIF_THOROUGH_SCALE (default 3; the counts were tuned for ~1-3 min per property at scale 1)
+        if self.tier == 'thorough':
+            return int(thorough * float(os.environ.get('VERIF_THOROUGH_SCALE', '3')))
+        return quick
 
     # -- bookkeeping
     def count(self, key, k=1, table=None):
